@@ -356,6 +356,17 @@ func (c *Ctx) Finish(exhaustive bool) {
 	if c.expired.Load() {
 		exhaustive = false
 	}
+	if n := len(c.nondet); n > 0 {
+		// A failure that does not repeat when its case is re-executed alone is
+		// not reported as a violation, but it must not disappear either: it
+		// usually means the failure depends on what the worker ran before
+		// (state left in a cached object), which the case alone cannot replay.
+		first := c.nondet[0]
+		if len(first) > 300 {
+			first = first[:300] + "…"
+		}
+		c.capNotes = append(c.capNotes, fmt.Sprintf("%d cases failed once but passed when re-executed alone (history-dependent or nondeterministic; listed in the evidence under nondeterministic_not_reported), first: %s", n, first))
+	}
 	if len(c.capNotes) > 0 {
 		exhaustive = false
 	}
